@@ -77,7 +77,8 @@ impl Program {
             // 175 frames, so that no ring size in the crate (30, 32, 60, 128, window+1) maps a frame
             // onto one with the same value pattern
             Program::Changing => 1 + ((2 * f + 3 * p + f / 5 + f / 7) % 5) as u8,
-            Program::Runs => 1 + (((f + p) / 3 + p) % 5) as u8,
+            // runs of three equal frames; period 165 (no aliasing with the ring sizes either)
+            Program::Runs => 1 + (((f + p) / 3 + f / 11 + p) % 5) as u8,
             Program::Sparse => {
                 if (f + 2 * p) % 7 == 3 {
                     1 + ((f / 7 + p) % 4) as u8
